@@ -1,5 +1,6 @@
 import PyaModel.Proofs.C05
 import PyaModel.Proofs.C05Star
+import PyaModel.Proofs.C05Perm
 /-!
 # Props/C05 — argument-to-parameter binding agrees with CPython
 
@@ -157,5 +158,86 @@ example : preprocess [.pos, .starUnk, .kw "e", .dstarUnk] = some exStarAcc := by
 example : preprocess [.pos, .pos, .starUnk, .kw "b", .dstarUnk] = some exStarRej := by rfl
 -- (B) also speaks about rejections with a single star argument, e.g. `def f(a)`: f(1, *xs)
 example : pyaBind [⟨"a", .posOrKw, false⟩] ⟨[true], true, [], false, false⟩ = none := by decide
+
+/-! ## The order of the keyword section does not matter; a name supplied twice is rejected
+
+Python allows explicit keywords `a=1`, dict displays `**{'a': 1}` and `**d` in any relative order
+after the positional section. `Arg.isKwItem` singles out these items (`kw`, `dstarLit`,
+`dstarUnk`); `pre` below is the (arbitrary) part of the call before the keyword section. -/
+
+/-- **Model, full result.** For every parameter list (not only `def`-shaped ones) and every two
+syntactic calls with the same prefix whose keyword sections are permutations of each other,
+`preprocess_args` + `bind_arguments` give the same result: the same verdict and, when accepted,
+the same bound positions. No exception class. -/
+theorem bind_kw_section_perm (sig : List Param) (pre K₁ K₂ : List Arg) (h : K₁.Perm K₂)
+    (hK : ∀ x ∈ K₁, x.isKwItem = true) :
+    pyaCall sig (pre ++ K₁) = pyaCall sig (pre ++ K₂) :=
+  pyaCall_kwsec_perm sig pre K₁ K₂ h hK
+
+/-- The same, read as "rejected for one order ⇔ rejected for the other". -/
+theorem bind_kw_section_perm_verdict (sig : List Param) (pre K₁ K₂ : List Arg) (h : K₁.Perm K₂)
+    (hK : ∀ x ∈ K₁, x.isKwItem = true) :
+    pyaCall sig (pre ++ K₁) = none ↔ pyaCall sig (pre ++ K₂) = none := by
+  rw [pyaCall_kwsec_perm sig pre K₁ K₂ h hK]
+
+/-- **Spec, concrete calls.** CPython's verdict on a concrete syntactic call does not depend on
+the order of the keyword section (indeed on no reordering of the items: only the number of
+positional values and the multiset of keyword names matter). -/
+theorem cpy_kw_section_perm_concrete (s : DefSig) (pre K₁ K₂ : List Arg) (h : K₁.Perm K₂) :
+    cpyCall s (pre ++ K₁) = cpyCall s (pre ++ K₂) :=
+  cpyCall_perm s (List.Perm.append_left pre h)
+
+/-- **Spec, with expansions: the set of binding expansions is the same.** Every concrete
+expansion of `pre ++ K₁` (each `*xs` replaced by a tuple of some length, each `**d` by a dict
+with some key list) splits into an expansion `cp` of the prefix and an expansion `ck₁` of the
+keyword section, and there is an expansion `ck₂` of `K₂`, a permutation of `ck₁` (the same value
+for the same item), such that `cp ++ ck₂` expands `pre ++ K₂` and CPython gives both concrete
+calls the same verdict. With `h.symm` this is a one-to-one correspondence of binding expansions. -/
+theorem cpy_kw_section_perm (s : DefSig) (pre K₁ K₂ : List Arg) (h : K₁.Perm K₂) (c₁ : List Arg)
+    (hc : Expands (pre ++ K₁) c₁) :
+    ∃ cp ck₁ ck₂, c₁ = cp ++ ck₁ ∧ Expands pre cp ∧ Expands K₂ ck₂ ∧ ck₁.Perm ck₂ ∧
+      Expands (pre ++ K₂) (cp ++ ck₂) ∧ cpyCall s c₁ = cpyCall s (cp ++ ck₂) := by
+  obtain ⟨cp, ck₁, rfl, hp, hk⟩ := expands_append c₁ hc
+  obtain ⟨ck₂, hk2, hperm⟩ := expands_perm h ck₁ hk
+  exact ⟨cp, ck₁, ck₂, rfl, hp, hk2, hperm, expands_append_mk hp hk2,
+    cpyCall_perm s (List.Perm.append_left cp hperm)⟩
+
+/-- **A name supplied twice is rejected, whatever the callee.** If two different items of a
+call (explicit keyword or key of a `**` dict display, in either order, anything in between)
+supply the same name `x`, pyanalyze's pipeline reports the call for every parameter list, CPython
+raises `TypeError` for every `def`, and so it does for every concrete expansion of the call. -/
+theorem duplicate_keyword_rejected (sig : List Param) (s : DefSig) (A B C : List Arg)
+    (a b : Arg) (x : String) (ha : x ∈ a.kwNames) (hb : x ∈ b.kwNames) :
+    pyaCall sig (A ++ a :: B ++ b :: C) = none ∧
+    cpyCall s (A ++ a :: B ++ b :: C) = false ∧
+    ∀ c, Expands (A ++ a :: B ++ b :: C) c → cpyCall s c = false := by
+  refine ⟨by unfold pyaCall; rw [preprocess_duplicate A B C a b x ha hb]; rfl,
+    cpyBind_not_nodup s _ (cCallOf_duplicate A B C a b x ha hb), ?_⟩
+  intro c hc
+  obtain ⟨c1, c2, rfl, h1, h2⟩ := expands_append c hc
+  obtain ⟨cA, c3, rfl, _, h3⟩ := expands_append c1 h1
+  obtain ⟨a', cB, rfl, haa, _⟩ := expands_cons_inv h3
+  obtain ⟨b', cC, rfl, hbb, _⟩ := expands_cons_inv h2
+  exact cpyBind_not_nodup s _
+    (cCallOf_duplicate cA cB cC a' b' x (argExp_kwNames haa ha) (argExp_kwNames hbb hb))
+
+/-! Non-vacuity. `def f(a, /, b, c=0, *args, d, e=0, **kw)` (`exSig`); the calls
+`f(1, *xs, d=1, **{'e': 2}, **dd)` and `f(1, *xs, **dd, **{'e': 2}, d=1)` (accepted), and the
+seeded defect's shape `f(1, **{'d': 1}, d=2)` (rejected by both). -/
+example : [Arg.kw "d", .dstarLit ["e"], .dstarUnk].Perm [.dstarUnk, .dstarLit ["e"], .kw "d"] := by
+  decide
+example : ∀ x ∈ [Arg.kw "d", .dstarLit ["e"], .dstarUnk], x.isKwItem = true := by decide
+example : (pyaCall exSig.params ([.pos, .starUnk] ++ [.kw "d", .dstarLit ["e"], .dstarUnk])).isSome
+    = true := by decide
+example : (pyaCall exSig.params ([.pos, .starUnk] ++ [.dstarUnk, .dstarLit ["e"], .kw "d"])).isSome
+    = true := by decide
+example : Expands ([.pos, .starUnk] ++ [.kw "d", .dstarLit ["e"], .dstarUnk])
+    ([.pos, .starLit 1] ++ [.kw "d", .dstarLit ["e"], .dstarLit ["z"]]) :=
+  .cons (.same _ rfl) (.cons (.star 1) (.cons (.same _ rfl) (.cons (.same _ rfl)
+    (.cons (.dstar ["z"]) .nil))))
+example : cpyCall exSig ([.pos, .starLit 1] ++ [.kw "d", .dstarLit ["e"], .dstarLit ["z"]]) = true := by
+  decide
+example : "d" ∈ (Arg.dstarLit ["d"]).kwNames ∧ "d" ∈ (Arg.kw "d").kwNames := by decide
+example : pyaCall exSig.params ([.pos] ++ .dstarLit ["d"] :: [] ++ .kw "d" :: []) = none := by decide
 
 end Pya
